@@ -153,7 +153,8 @@ def _mk_dict_shape(keys):
         def ensures(c, self, structure, where, construct_kwargs, result):
             ctx = c.ctx
             n = len(keys)
-            out = {"children-translated-once-each-in-key-order-at-where-dot-key": c.And(c.n_events() >= n, *[_expect_translated(c, i, structure[k], where, "." + k) for i, k in enumerate(keys)])}
+            out = {"children-translated-once-each-in-key-order-at-where-dot-key": c.And(c.n_events() >= n, *[_expect_translated(c, i, structure[k], where, ".%s" % (k,)) for i, k in enumerate(keys)]),
+                   "the-extra-keyword-arguments-go-to-THIS-nodes-construction-only-not-to-the-children": all(not tr["kwargs"] for tr in ctx.ghost.get("c05_translations", []))}
             res = c.result
             res = ctx.from_val(res) if isinstance(res, SV) else res
             if not has_type:
@@ -182,7 +183,7 @@ def _mk_dict_shape(keys):
             if cons and cons[-1][0] == "raise":
                 err = cons[-1][1]
                 ev = ObjViewOf(c, err)
-                return c.And(c.n_events() == n + 2, *[_expect_translated(c, i, structure[k], where, "." + k) for i, k in enumerate(keys)],
+                return c.And(c.n_events() == n + 2, *[_expect_translated(c, i, structure[k], where, ".%s" % (k,)) for i, k in enumerate(keys)],
                              c.Or(c.And(ev.isa("Exception"), exc.cls_is(CE), sstr(exc.where) == sstr(where), Z.is_strv(exc.where.t),
                                         z3.If(ev.isa(CE), exc.what.t == ev.what.t, exc.what.t == ev.t)),
                                   c.And(c.Not(ev.isa("Exception")), exc.t == ev.t)))
@@ -200,9 +201,11 @@ def ObjViewOf(c, sv):
     return ObjView(c, sv.t, sv.ty, c.new_heap)
 
 
-DICT_SHAPES = [(), ("a",), ("a", "b"), ("b", "a", "c"), ("__type__",), ("__type__", "a"), ("a", "__type__", "b"), ("__type__", "__args__", "a"), ("__args__", "a")]
+# keys are whatever YAML allows as a mapping key: strings, but also numbers and booleans (`80: http`)
+DICT_SHAPES = [(), ("a",), ("a", "b"), ("b", "a", "c"), ("__type__",), ("__type__", "a"), ("a", "__type__", "b"), ("__type__", "__args__", "a"), ("__args__", "a"),
+               (80,), ("a", 7, True), ("__type__", 443)]
 for _ks in DICT_SHAPES:
-    contract(MAP + ":Translator.translate_hierarchy#mapping(%s)" % ",".join(_ks), props=["C19"])(_mk_dict_shape(_ks))
+    contract(MAP + ":Translator.translate_hierarchy#mapping(%s)" % ",".join(repr(k) if not isinstance(k, str) else k for k in _ks), props=["C19"])(_mk_dict_shape(_ks))
 
 
 def _mk_list_shape(n):
@@ -219,6 +222,7 @@ def _mk_list_shape(n):
             res = ctx.from_val(res) if isinstance(res, SV) else res
             ok = isinstance(res, VList) and len(res.items) == n
             return {"items-translated-once-each-last-to-first-at-where-index": c.And(c.n_events() == n, *[_expect_translated(c, n - 1 - k, structure[k], where, "[%d]" % k) for k in range(n)]),
+                    "no-extra-keyword-arguments-reach-the-items": all(not tr["kwargs"] for tr in ctx.ghost.get("c05_translations", [])),
                     "result-lists-the-translated-items-in-the-original-order": c.And(*[_t(ctx.to_val(res.items[k])) == Event.e_c(c.event_at(n - 1 - k)) for k in range(n)]) if ok else False,
                     "the-input-list-is-not-modified": len(structure) == n}
 
